@@ -252,7 +252,7 @@ def gen_single(rnd, kind, k):
 
 FINDING_IDS = ["C08-server-default-quote-strip", "C08-quoted-name-flag-lost", "C08-table-prefix-raw-quote",
                "C08-batch-header-ignores-module-prefix", "C08-add-column-primary-key-lost", "C08-drop-table-enum-type",
-               "C08-mysql-functional-index-parens"]
+               "C08-mysql-functional-index-parens", "C08-percent-doubled-in-sql-expressions"]
 
 
 def registered():
@@ -293,6 +293,8 @@ def finding_cases(reg):
         out.append({"stream": "A", "cfg": cfg, "nc": False, "finding": "C08-drop-table-enum-type",
                     "ops": [{"k": "drop_table", "table": {"name": "t", "schema": None, "cols": [col(type=("Enum", ["a", "b"]))], "cons": [],
                                                           "comment": None, "prefixes": [], "if_not_exists": None}, "if_exists": None}]})
+    if "C08-percent-doubled-in-sql-expressions" in reg:
+        out.append({"stream": "B", "cfg": cfg, "nc": False, "finding": "C08-percent-doubled-in-sql-expressions", "b": "pct_default"})
     if "C08-add-column-primary-key-lost" in reg:
         out.append({"stream": "B", "cfg": cfg, "nc": False, "finding": "C08-add-column-primary-key-lost", "b": "addcol_pk"})
     return out
@@ -318,8 +320,11 @@ def generate(tier, seed):
         if b == "func_index" and "C08-mysql-functional-index-parens" not in reg:
             continue
         for k in range(6 if tier == "quick" else 40):
+            # a percent sign inside a rendered SQL expression is doubled on pyformat dialects (finding
+            # C08-percent-doubled-in-sql-expressions): kept out of the ordinary stream unless registered
+            pool = NAMES if "C08-percent-doubled-in-sql-expressions" in reg else [n for n in NAMES if "%" not in n]
             yield {"stream": "B", "cfg": {"op": "op", "sa": "sa", "batch": False}, "nc": k % 2 == 1, "b": b,
-                   "names": [rnd.choice(NAMES) for _ in range(4)]}
+                   "names": [rnd.choice(pool) for _ in range(4)]}
 
 
 def search(tier, seed):
@@ -573,6 +578,10 @@ def build_b(h):
         sa.Table("parent", m, sa.Column("id", sa.Integer, primary_key=True), schema="ps")
         t = sa.Table(tn, m, sa.Column(c1, sa.Integer, sa.ForeignKey("ps.parent.id", ondelete="CASCADE")), schema="cs")
         return [ops.CreateTableOp.from_table(t)]
+    if b == "pct_default":
+        t = sa.Table("t", m, sa.Column("c", sa.String(10), server_default=sa.text("'100%'")),
+                     sa.CheckConstraint(sa.text("c like 'a%'"), name="ck1"))
+        return [ops.CreateTableOp.from_table(t)]
     if b == "addcol_fk":
         sa.Table("parent", m, sa.Column("id", sa.Integer, primary_key=True))
         t = sa.Table("t", m, sa.Column("pid", sa.Integer, sa.ForeignKey("parent.id")))
@@ -634,4 +643,6 @@ def classify(h, out):
         return h["finding"]
     if h.get("b") == "func_index":
         return "C08-mysql-functional-index-parens"
+    if h.get("stream") == "B" and any("%" in n for n in h.get("names", [])):
+        return "C08-percent-doubled-in-sql-expressions"
     return None
